@@ -34,6 +34,7 @@ const char* const KEY_C = "C15|bloom|read-only view|invert/union_with/intersect 
 // query_and_update() through the same caller-memory filter either of them alone leaves a wrong count in the memory). Suspicions
 // are carried as a mask; a failure is reported under an explanation that is listed as open if there is one, else under the first.
 enum : unsigned { SUS_A = 1, SUS_B = 2, SUS_C = 4 };
+const char* const KEY_D = "C15|bloom|capacity >= 2^32 bits|deserialize/wrap shift the 32-bit length in longs by 6 without widening|serialize->restore of a filter of 2^32 or more bits";
 std::string keyof(unsigned mask) {
   const char* const keys[3] = {KEY_A, KEY_B, KEY_C};
   for (int i = 0; i < 3; ++i) if ((mask >> i & 1) && vf::known_keys().count(keys[i])) return keys[i];
@@ -806,6 +807,39 @@ void prop_accuracy(const Case& cs) {
   vf::nontrivial();
 }
 
+// ---------------------------------------------------------------- sizes of 2^32 bits and more (allowed: up to ~1.7e10 bits)
+// Only the empty filter is taken through serialize -> restore, and only one 512 MiB object is alive at a time.
+void prop_huge(const Case& cs) {
+  vf::own_randomness(11);
+  const uint64_t nbits = (1ull << 32) + static_cast<uint64_t>(std::min<int64_t>(4096, std::max<int64_t>(-63, cs.get("delta", 0))));
+  const uint16_t nh = static_cast<uint16_t>(1 + cs.get("nh", 0) % 5);
+  const uint64_t seed = vf::mix64(static_cast<uint64_t>(cs.get("seed", 0)));
+  const uint64_t cap = round64(nbits);
+  std::vector<uint8_t> img;
+  std::string simg;
+  {
+    bloom_filter f = bloom_filter::builder::create_by_size(nbits, nh, seed);
+    VF_CHECK(f.get_capacity() == cap, "config-capacity", "capacity " << f.get_capacity() << " for num_bits " << nbits);
+    VF_CHECK(f.is_empty() && !f.query(static_cast<uint64_t>(7)), "new-empty", "new filter not empty");
+    auto b = f.serialize();
+    img.assign(b.begin(), b.end());
+    std::ostringstream os(std::ios::binary); f.serialize(os); simg = os.str();
+    VF_CHECK(img.size() == 24 && simg.size() == 24, "image-size", "empty image of " << img.size() << " / " << simg.size() << " bytes");
+  }
+  for (int mode = 0; mode < 3; ++mode) {
+    const char* how = mode == 0 ? "deserialize(bytes)" : mode == 1 ? "deserialize(stream)" : "wrap";
+    uint64_t got = 0; std::string err;
+    try {
+      if (mode == 0) { bloom_filter g = bloom_filter::deserialize(img.data(), img.size()); got = g.get_capacity(); }
+      else if (mode == 1) { std::istringstream is(simg, std::ios::binary); bloom_filter g = bloom_filter::deserialize(is); got = g.get_capacity(); }
+      else { const bloom_filter g = bloom_filter::wrap(img.data(), img.size()); got = g.get_capacity(); }
+    } catch (const std::exception& e) { err = e.what(); }
+    VF_CHECK_K(err.empty() && got == cap, "huge-restore", std::string(KEY_D), how << " of the image of an empty filter of " << cap << " bits: "
+               << (err.empty() ? "capacity " + std::to_string(got) : "threw '" + err + "'"));
+  }
+  vf::label("capacity>=2^32");
+}
+
 // ---------------------------------------------------------------- generators
 rc::Gen<Case> gen_main() {
   using namespace vf;
@@ -861,6 +895,11 @@ rc::Gen<Case> gen_accuracy() {
                    rc::gen::just(std::vector<Op>{}));
 }
 
+rc::Gen<Case> gen_huge() {
+  using namespace vf;
+  return make_case({{"delta", pick({0, 0, 1, -63, 64, 4000})}, {"nh", range(0, 4)}, {"seed", range(0, 1 << 20)}}, rc::gen::just(std::vector<Op>{}));
+}
+
 }  // namespace
 
 int main(int argc, char** argv) {
@@ -868,6 +907,7 @@ int main(int argc, char** argv) {
   subs.push_back({"main", gen_main, prop, 1.0});
   subs.push_back({"large", gen_large, prop, 0.02, 60});
   subs.push_back({"accuracy", gen_accuracy, prop_accuracy, 0.015});
+  subs.push_back({"huge", gen_huge, prop_huge, 0.0001});  // one to a few cases per worker (512 MiB each, one object alive at a time)
   return vf::main_driver(argc, argv, "C15", "c15_bloom",
                          "case = base filter config (num_bits incl. non-multiples of 64, hashes, seed, owned or caller memory, caller discipline) + generated history over up to 7 "
                          "live views (create/initialize, typed update, query_and_update, bulk, duplicates, wrap/writable_wrap/deserialize of caller memory, serialize->restore, "
